@@ -316,3 +316,5 @@ for _p in ("C14", "C13", "C01"):
 PROPS["C14"]["level_text"] = ("Deductive (unbounded), re-indexing segment of preprocess_token_sequences: with a mask every sequence keeps its length, a removed token becomes the index "
     "m = number of real tokens, the mask is exactly one extra entry with that last index, and the dictionary object passed in is not edited; without a mask sequences only get shorter. " + PROPS["C14"]["level_text"])
 PROPS["C14"]["explanation"] = PROPS["C14"]["level_text"]
+
+PROPS["C06"]["structural"] = [st("ngram_vectorizer.py", "NgramVectorizer.__add__", "no-alias-mutation")]
